@@ -255,6 +255,59 @@ example :
 encoder, a time decoder that knows one instant): the theorems are not vacuous in `c`. -/
 example : Nonempty Spec.Codecs := ⟨codecsFor default⟩
 
+/-- The codec laws are satisfied by real decoders (`RtL.realCodecs`): the RFC 3339 decoder
+`Spec.parseRFC3339` (it inverts `formatTime` on `Spec.TimeDom`: local civil year 0..9999,
+nanoseconds below a second, whole-minute zone strictly within a day) and the base64 decoder
+`Spec.b64decode`. Every theorem stated for an arbitrary `c : Spec.Codecs` holds for them. -/
+theorem C01_real_codecs :
+    ∃ c : Spec.Codecs, c.parseTime = Spec.parseRFC3339 ∧ c.b64dec = Spec.b64decode ∧
+      (∀ t, c.TimeOk t ↔ Spec.TimeDom t) :=
+  ⟨realCodecs, rfl, rfl, fun _ => Iff.rfl⟩
+
+/-- the decoder on literal text: "2018-02-02T18:35:06.5-09:30"; a wrong separator, a
+trailing byte, an empty fraction and a ten-digit fraction are rejected -/
+example :
+    Spec.parseRFC3339 [50,48,49,56,45,48,50,45,48,50,84,49,56,58,51,53,58,48,54,46,53,45,48,57,58,51,48]
+      = some ⟨1517630706, 500000000, -34200⟩ ∧
+    Spec.parseRFC3339 [50,48,49,56,45,48,50,45,48,50,32,49,56,58,51,53,58,48,54,90] = none ∧
+    Spec.parseRFC3339 [50,48,49,56,45,48,50,45,48,50,84,49,56,58,51,53,58,48,54,90,90] = none ∧
+    Spec.parseRFC3339 [50,48,49,56,45,48,50,45,48,50,84,49,56,58,51,53,58,48,54,46,90] = none ∧
+    Spec.parseRFC3339 [50,48,49,56,45,48,50,45,48,50,84,49,56,58,51,53,58,48,54,46,
+      49,50,51,52,53,54,55,56,57,48,90] = none := by decide
+
+/-- the round trip on an instant with a fraction and a negative half-hour zone, on the first
+second of year 1 and the last nanosecond of year 9999 (UTC), and on the two ends of
+`Spec.TimeDom` (local 0000-01-01T00:00:00+23:59, local 9999-12-31T23:59:59.999999999-23:59) -/
+example :
+    Spec.parseRFC3339 (formatTime ⟨1517630706, 500000000, -34200⟩) = some ⟨1517630706, 500000000, -34200⟩ ∧
+    Spec.parseRFC3339 (formatTime ⟨-62135596800, 0, 0⟩) = some ⟨-62135596800, 0, 0⟩ ∧
+    Spec.parseRFC3339 (formatTime ⟨253402300799, 999999999, 0⟩) = some ⟨253402300799, 999999999, 0⟩ ∧
+    Spec.parseRFC3339 (formatTime ⟨-62167305540, 1, 86340⟩) = some ⟨-62167305540, 1, 86340⟩ ∧
+    Spec.parseRFC3339 (formatTime ⟨253402387139, 999999999, -86340⟩) = some ⟨253402387139, 999999999, -86340⟩ :=
+  ⟨parseRFC3339_formatTime _ (by decide), parseRFC3339_formatTime _ (by decide),
+   parseRFC3339_formatTime _ (by decide), parseRFC3339_formatTime _ (by decide),
+   parseRFC3339_formatTime _ (by decide)⟩
+
+/-- `Spec.TimeDom` is decidable, and what it excludes: one second before local year 0 (the
+year would be negative), one second after local year 9999 (five digits), a zone offset with
+seconds (`zoneText` drops them), a zone offset of a whole day, a nanosecond count of a second -/
+example : ¬ Spec.TimeDom ⟨-62167219201, 0, 0⟩ ∧ ¬ Spec.TimeDom ⟨253402300800, 0, 0⟩ ∧
+    ¬ Spec.TimeDom ⟨0, 0, 30⟩ ∧ ¬ Spec.TimeDom ⟨0, 0, 86400⟩ ∧ ¬ Spec.TimeDom ⟨0, 1000000000, 0⟩ := by
+  decide
+
+/-- a time through `C01_value_roundtrip` with the real decoders -/
+example :
+    let t0 : Time := { sec := 1700000000, nsec := 500, off := 3600 }
+    ∃ v', unmarshalToType { name := [116], ty := 13, nullable := true }
+        (Spec.rawOf realCodecs (encodeAttr (.ptr .time (some (.t t0))))) = .ok v' ∧
+      Spec.sameVal v' (.ptr .time (some (.t t0))) := by
+  intro t0
+  apply C01_value_roundtrip _ _ .time (by decide) _ (.inl (by decide))
+  intro k t e
+  rcases e with e | e
+  · cases e
+  · cases e; show Spec.TimeDom _; decide
+
 /-- a time and a byte string through `C01_value_roundtrip` with that inhabitant -/
 example :
     let t0 : Time := { sec := 1700000000, nsec := 500, off := 3600 }
@@ -366,4 +419,9 @@ open Jsonapi
 #print axioms C01_roundtrip_model
 #print axioms C01_exσ_wf
 #print axioms C01_exR_dom
+#print axioms C01_real_codecs
+#print axioms RtL.realCodecs
+#print axioms RtL.parseRFC3339_formatTime
+#print axioms RtL.daysFromCivil_civilFromDays
+#print axioms RtL.b64decode_b64enc
 end Axioms
